@@ -172,8 +172,16 @@ func blocksWithoutCtx(fn *ssa.Function) string {
 		// an operation that is a listed never-blocks exception (the slot-token send of MapStream) stays one in a helper
 		excepted := false
 		if op.kind != "select" {
+			chPath := op.arms[0].chPath
+			// the channel is the helper's parameter (func (t tokens) release() { t <- struct{}{} }): what the caller under
+			// analysis passes
+			if prm, isP := op.arms[0].ch.(*ssa.Parameter); isP {
+				if b, bound := chanParamBinding[prm]; bound {
+					chPath = path(b)
+				}
+			}
 			for k := range ctxArmExceptions {
-				if strings.HasSuffix(k, "|"+op.kind+":"+op.arms[0].chPath) || (op.kind == "send" && strings.HasSuffix(op.arms[0].chPath, ".ready") && strings.Contains(k, "send:") && strings.HasSuffix(k, ".ready")) {
+				if strings.HasSuffix(k, "|"+op.kind+":"+chPath) || (op.kind == "send" && strings.HasSuffix(chPath, ".ready") && strings.Contains(k, "send:") && strings.HasSuffix(k, ".ready")) {
 					excepted = true
 				}
 			}
